@@ -59,12 +59,44 @@ def judge(chk, prop, sc, cfgseed, ndims, style):
                     core.jdump(sc["applied"])[:200], obs["raised"], "non-failing" if sc["nofail"] else "failing"), obs
         return None, obs
     if prop == "C20":
+        if style.get("hdrgeo") is not None:
+            # the global header's geometry lines damaged so that every line still parses on its own (a value missing from the
+            # lower / upper corner or from a cell-size line, a level missing from the domain line, a domain given upper corner
+            # first): whatever the validator says about it, "accepted" must still mean "readable"
+            damage_header_geometry(d, style["hdrgeo"], ndims)
+            obs = T.taste(ds, sc)
         if default and not o["coords"] and obs["verdict"] == "good":
             v = T.read_consistency(d, sc, ndims, open_as=ds)
             if v:
                 return "%s after %s" % (v, core.jdump(sc["applied"])[:200]), obs
         return None, obs
     raise core.MachineryError(prop)
+
+
+def damage_header_geometry(d, kind, ndims):
+    import os
+    import re
+    hp = os.path.join(d, "Header")
+    lines = open(hp, encoding="utf-8").read().split("\n")
+    nf = int(lines[1])
+    base = 2 + nf               # index of the dimension line
+    nlev = int(lines[base + 2]) + 1
+    i_lo, i_hi, i_dom, i_dx = base + 3, base + 4, base + 6, base + 8
+    kind = kind % 5
+    if kind == 0:
+        lines[i_lo] = " ".join(lines[i_lo].split()[:-1])
+    elif kind == 1:
+        lines[i_hi] = " ".join(lines[i_hi].split()[:-1])
+    elif kind == 2:
+        k = i_dx + (nlev - 1)
+        lines[k] = " ".join(lines[k].split()[:-1])
+    elif kind == 3 and nlev > 1:
+        doms = re.findall(r"\(\([^()]*\) \([^()]*\) \([^()]*\)\)", lines[i_dom])
+        lines[i_dom] = " ".join(doms[:-1])
+    else:
+        doms = re.findall(r"\(\(([^()]*)\) \(([^()]*)\) \(([^()]*)\)\)", lines[i_dom])
+        lines[i_dom] = " ".join("((%s) (%s) (%s))" % (b if n == 0 else a, a if n == 0 else b, c) for n, (a, b, c) in enumerate(doms))
+    open(hp, "w", encoding="utf-8").write("\n".join(lines))
 
 
 def klass_of(prop, sc):
@@ -140,6 +172,8 @@ def run_prop(chk, replay, prop):
             style = {"ghost": True}           # the deleted file keeps a directory entry (dangling link / directory of that name)
         if prop in ("C03", "C04") and ndims == 3 and not style and i % 61 == 7 and not sc["opts"]["data"]:
             style = {"far": True}             # recorded positions beyond 2**31 (a sparse box of zeros of more than 2 GiB in front)
+        if prop == "C20" and not style and not (sc.get("applied") or []) and i % 3 == 0:
+            style = {"hdrgeo": i // 3}        # geometry lines of the global header damaged (every line still parses)
         if i % 9 == 4 and not style:
             style = {"crowd": True}           # hundreds of further boxes in front of the modelled ones, in the same files
         cfgseed = chk.rng.randrange(1 << 30)
@@ -156,3 +190,8 @@ def run_prop(chk, replay, prop):
 
 def run(chk, replay):
     run_prop(chk, replay, "C04")
+    if not replay:
+        # the working directory changes between validations of plotfiles typed under a relative name; every second directory
+        # holds a DAMAGED plotfile, which must be reported bad whatever was validated before (PoolEnv.tla)
+        from harness import poolenv
+        poolenv.tool_phase(chk, "taste")
